@@ -113,73 +113,8 @@ def _classify(ops, i, impl, model):
     return f"lines-client:{model[i].split()[0]}-vs-{impl[i].split()[0]}"
 
 
-def run(ctx):
-    setup_repo_import()
-    from gallia.services.uds.server import TCPUDSServerTransport
-    from gallia.transports.tcp import TCPLinesTransport
-    from gallia.transports.unix import UnixLinesTransport
-    import gallia.services.uds.server as _srv
-    import types
-    _srv.traceback = types.SimpleNamespace(print_exc=lambda *a, **k: None)  # keep the server loop's stderr quiet
-
-    rng = ctx.rng
-    ctx.rule = ("op scripts (feed chunk / eof / read with timeout / write) over an in-memory StreamReader for both "
-                "line transports; server loop fed request bursts; distinct = distinct (transport, op script) whose "
-                "stream holds >= 1 complete message; non-trivial = has a split inside a line, a coalesced burst, a "
-                "timeout on a partial line or an EOF")
-    scripts = []  # (label, cls, scheme, ops)
-    variants = [(TCPLinesTransport, "tcp-lines"), (UnixLinesTransport, "unix-lines")]
-
-    def add(label, ops):
-        for cls, scheme in variants:
-            scripts.append((label, cls, scheme, ops))
-
-    # 1. exhaustive: every single split point of short streams, read attempted after every chunk
-    short_sets = [[b"\x3e\x00"], [b"\x10\x01", b"\x22\xf1\x90"], [b"\x0a", b"\x0d\x0a\x20"], [bytes([0xFF] * 5)]]
-    for ms in short_sets:
-        stream = b"".join(m.hex().encode() + b"\n" for m in ms)
-        for cut in range(0, len(stream) + 1):
-            ops = [("feed", stream[:cut])] if cut else []
-            ops += [("read", 0.5)]
-            if cut < len(stream):
-                ops += [("feed", stream[cut:])]
-            ops += [("read", 0.5)] * (len(ms) + 1)
-            add("single-split-exhaustive", ops)
-            # EOF after the prefix: nothing but complete lines may be delivered
-            ops2 = ([("feed", stream[:cut])] if cut else []) + [("eof",)] + [("read", 0.5)] * (len(ms) + 1)
-            add("eof-at-every-offset", ops2)
-    ctx.exhaustive_parts.append("every single split point and every EOF offset of 4 short message bursts")
-
-    # 2. seeded: bursts, multi-splits, timeouts at prefixes, long messages
-    n_rand = ctx.pick(150, 1500)
-    for _ in range(n_rand):
-        ms = _msgs(rng, rng.randint(1, 6), ctx.pick(300, 4095))
-        stream = b"".join(m.hex().encode() + b"\n" for m in ms)
-        chunks = _splits(rng, stream, rng.choice(["whole", "multi", "multi", rng.randrange(len(stream))]))
-        ops = []
-        for c in chunks:
-            if c:
-                ops.append(("feed", c))
-            for _ in range(rng.choice([0, 1, 1, 2])):
-                ops.append(("read", rng.choice([0.1, 1.0])))
-        if rng.random() < 0.4:
-            ops.append(("eof",))
-        ops += [("read", 0.2)] * (len(ms) + 1)
-        add("seeded-burst", ops)
-    # 3. 4095-byte message and write direction
-    big = bytes(rng.randrange(256) for _ in range(4095))
-    add("max-length", [("write", big), ("feed", big.hex().encode()[:4000]), ("read", 1.0),
-                       ("feed", big.hex().encode()[4000:] + b"\n"), ("read", 1.0)])
-    for _ in range(ctx.pick(20, 200)):
-        m = _msgs(rng, 1, 64)[0]
-        add("write", [("write", m)])
-    # 4. malformed (ASCII only): upper case, whitespace padding, odd length, foreign characters
-    for line in [b"3E00\n", b"  3e00 \r\n", b"3e0\n", b"zz\n", b"3e 00\n", b"\t10\x0b\x0c01\n", b"\x1c3e\x1f\n"]:
-        add("malformed-or-padded", [("feed", line), ("read", 0.5), ("read", 0.5)])
-    for _ in range(ctx.pick(40, 400)):
-        line = bytes(rng.choice(b"0123456789abcdefABCDEF \t\rxg") for _ in range(rng.randint(0, 9))) + b"\n"
-        add("malformed-or-padded", [("feed", line), ("read", 0.5)])
-
+def _eval_client_scripts(ctx, scripts):
+    """scripts: (label, cls, scheme, ops) -> [(impl results, oracle results)]; differences are recorded with ctx.disagree"""
     # run implementation
     impl_results = []
     for label, cls, scheme, ops in scripts:
@@ -196,8 +131,10 @@ def run(ctx):
         index.append((len(batch), len(ml)))
         batch += ml
     out = ctx.lean(batch)
+    models = []
     for (label, cls, scheme, ops), r, (off, n) in zip(scripts, impl_results, index):
         mo = ["eos" if x == "msg -" else x for x in out[off + 1: off + n]]  # API level: b"" is end-of-stream
+        models.append(mo)
         ctx.ev()
         ctx.kind(f"client:{label}")
         ctx.nontrivial((scheme, repr(ops)))
@@ -208,11 +145,14 @@ def run(ctx):
             ctx.disagree(key, f"{scheme} read/write differs from the line oracle at op {i}: impl={r[i] if i < len(r) else '?'} oracle={mo[i]}",
                          {"side": "client", "scheme": scheme, "ops": [[o[0]] + [x.hex() if isinstance(x, bytes) else x for x in o[1:]] for o in ops[: i + 1]]},
                          impl=r[: i + 1], model=mo[: i + 1], spec_violated=True, site="LinesTransportMixin.read/write")
-    ctx.sample({"scheme": scripts[0][2], "ops": [[o[0]] + [x.hex() if isinstance(x, bytes) else x for x in o[1:]] for o in scripts[5][3]],
-                "impl": impl_results[5]})
-    ctx.traces_validated += len(scripts)
+    return list(zip(impl_results, models))
 
-    # --- server loop ---------------------------------------------------------------------------
+
+def _make_serve(_srv):
+    """-> serve(chunks, eof_tail, kind): the real line loop (started through its own run()) around the real handle_request over a scripted
+    respond(), fed `chunks`, then EOF -> (bytes written, loop ended before EOF?, requests handed over)"""
+    from gallia.services.uds.server import TCPUDSServerTransport
+
     class _Reply:
         def __init__(self, pdu):
             self.pdu = pdu
@@ -317,6 +257,112 @@ def run(ctx):
             pass
         return writer.data, done_early, t.n
 
+    return serve
+
+
+def _eval_server_bursts(ctx, serve, srv_cases):
+    """srv_cases: (stream, chunks, tail) -> [((written, handled), oracle line)]"""
+    batch = ["serve " + hx(s) for s, _, _ in srv_cases]
+    out = ctx.lean(batch)
+    res = []
+    for (stream, chunks, tail), mo in zip(srv_cases, out):
+        (written, done_early, n), _vt = vrun(serve(chunks, tail, kind=len(stream) % 2))
+        w_m, err_m, left_m, n_m = mo.split()
+        res.append(((hx(written), n), mo))
+        ctx.ev()
+        ctx.kind("server:burst" + ("+partial-tail" if tail else ""))
+        ctx.nontrivial(("srv", stream, tuple(chunks)))
+        # before EOF: replies so far must equal the oracle's; the partial tail must not have been answered
+        if hx(written) != w_m or (int(n) != int(n_m) and not tail):
+            ctx.disagree("lines-server:replies-differ" + (":unterminated-tail-answered-at-eof" if tail and int(n) == int(n_m) + 1 else ""),
+                         "server loop output differs from the line oracle",
+                         {"side": "server", "stream": stream.hex(), "chunks": [c.hex() for c in chunks], "tail": tail.hex(), "kind": ["tcp", "unix"][len(stream) % 2]},
+                         impl={"written": hx(written), "handled": n}, model=mo, spec_violated=True,
+                         site="TCPUDSServerTransport.handle_client")
+        elif tail and int(n) != int(n_m):
+            ctx.disagree("lines-server:unterminated-tail-handled-at-eof",
+                         "server loop handles an unterminated request tail at EOF as a request",
+                         {"side": "server", "stream": stream.hex(), "chunks": [c.hex() for c in chunks], "tail": tail.hex(), "kind": ["tcp", "unix"][len(stream) % 2]},
+                         impl={"written": hx(written), "handled": n}, model=mo, spec_violated=True,
+                         site="TCPUDSServerTransport.handle_client")
+    return res
+
+
+def run(ctx):
+    setup_repo_import()
+    from gallia.services.uds.server import TCPUDSServerTransport
+    from gallia.transports.tcp import TCPLinesTransport
+    from gallia.transports.unix import UnixLinesTransport
+    import gallia.services.uds.server as _srv
+    import types
+    _srv.traceback = types.SimpleNamespace(print_exc=lambda *a, **k: None)  # keep the server loop's stderr quiet
+
+    rng = ctx.rng
+    ctx.rule = ("op scripts (feed chunk / eof / read with timeout / write) over an in-memory StreamReader for both "
+                "line transports; server loop fed request bursts; distinct = distinct (transport, op script) whose "
+                "stream holds >= 1 complete message; non-trivial = has a split inside a line, a coalesced burst, a "
+                "timeout on a partial line or an EOF")
+    scripts = []  # (label, cls, scheme, ops)
+    variants = [(TCPLinesTransport, "tcp-lines"), (UnixLinesTransport, "unix-lines")]
+
+    def add(label, ops):
+        for cls, scheme in variants:
+            scripts.append((label, cls, scheme, ops))
+
+    # 1. exhaustive: every single split point of short streams, read attempted after every chunk
+    short_sets = [[b"\x3e\x00"], [b"\x10\x01", b"\x22\xf1\x90"], [b"\x0a", b"\x0d\x0a\x20"], [bytes([0xFF] * 5)]]
+    for ms in short_sets:
+        stream = b"".join(m.hex().encode() + b"\n" for m in ms)
+        for cut in range(0, len(stream) + 1):
+            ops = [("feed", stream[:cut])] if cut else []
+            ops += [("read", 0.5)]
+            if cut < len(stream):
+                ops += [("feed", stream[cut:])]
+            ops += [("read", 0.5)] * (len(ms) + 1)
+            add("single-split-exhaustive", ops)
+            # EOF after the prefix: nothing but complete lines may be delivered
+            ops2 = ([("feed", stream[:cut])] if cut else []) + [("eof",)] + [("read", 0.5)] * (len(ms) + 1)
+            add("eof-at-every-offset", ops2)
+    ctx.exhaustive_parts.append("every single split point and every EOF offset of 4 short message bursts")
+
+    # 2. seeded: bursts, multi-splits, timeouts at prefixes, long messages
+    n_rand = ctx.pick(150, 1500)
+    for _ in range(n_rand):
+        ms = _msgs(rng, rng.randint(1, 6), ctx.pick(300, 4095))
+        stream = b"".join(m.hex().encode() + b"\n" for m in ms)
+        chunks = _splits(rng, stream, rng.choice(["whole", "multi", "multi", rng.randrange(len(stream))]))
+        ops = []
+        for c in chunks:
+            if c:
+                ops.append(("feed", c))
+            for _ in range(rng.choice([0, 1, 1, 2])):
+                ops.append(("read", rng.choice([0.1, 1.0])))
+        if rng.random() < 0.4:
+            ops.append(("eof",))
+        ops += [("read", 0.2)] * (len(ms) + 1)
+        add("seeded-burst", ops)
+    # 3. 4095-byte message and write direction
+    big = bytes(rng.randrange(256) for _ in range(4095))
+    add("max-length", [("write", big), ("feed", big.hex().encode()[:4000]), ("read", 1.0),
+                       ("feed", big.hex().encode()[4000:] + b"\n"), ("read", 1.0)])
+    for _ in range(ctx.pick(20, 200)):
+        m = _msgs(rng, 1, 64)[0]
+        add("write", [("write", m)])
+    # 4. malformed (ASCII only): upper case, whitespace padding, odd length, foreign characters
+    for line in [b"3E00\n", b"  3e00 \r\n", b"3e0\n", b"zz\n", b"3e 00\n", b"\t10\x0b\x0c01\n", b"\x1c3e\x1f\n"]:
+        add("malformed-or-padded", [("feed", line), ("read", 0.5), ("read", 0.5)])
+    for _ in range(ctx.pick(40, 400)):
+        line = bytes(rng.choice(b"0123456789abcdefABCDEF \t\rxg") for _ in range(rng.randint(0, 9))) + b"\n"
+        add("malformed-or-padded", [("feed", line), ("read", 0.5)])
+
+    impl_results = [r for r, _mo in _eval_client_scripts(ctx, scripts)]
+    ctx.sample({"scheme": scripts[0][2], "ops": [[o[0]] + [x.hex() if isinstance(x, bytes) else x for x in o[1:]] for o in scripts[5][3]],
+                "impl": impl_results[5]})
+    ctx.traces_validated += len(scripts)
+
+    # --- server loop ---------------------------------------------------------------------------
+    serve = _make_serve(_srv)
+
     srv_cases = []
     for _ in range(ctx.pick(120, 1200)):
         ms = _msgs(rng, rng.randint(1, 8), ctx.pick(100, 4095))
@@ -331,27 +377,7 @@ def run(ctx):
         line = m.hex().encode() + b"\n" + b"3e00\n"
         srv_cases.append((line, _splits(rng, line, "multi"), b""))
         srv_cases.append((line + b"3e00\n", _splits(rng, line + b"3e00\n", "multi"), b""))  # other parity -> other server kind
-    batch = ["serve " + hx(s) for s, _, _ in srv_cases]
-    out = ctx.lean(batch)
-    for (stream, chunks, tail), mo in zip(srv_cases, out):
-        (written, done_early, n), _vt = vrun(serve(chunks, tail, kind=len(stream) % 2))
-        w_m, err_m, left_m, n_m = mo.split()
-        ctx.ev()
-        ctx.kind("server:burst" + ("+partial-tail" if tail else ""))
-        ctx.nontrivial(("srv", stream, tuple(chunks)))
-        # before EOF: replies so far must equal the oracle's; the partial tail must not have been answered
-        if hx(written) != w_m or (int(n) != int(n_m) and not tail):
-            ctx.disagree("lines-server:replies-differ" + (":unterminated-tail-answered-at-eof" if tail and int(n) == int(n_m) + 1 else ""),
-                         "server loop output differs from the line oracle",
-                         {"side": "server", "stream": stream.hex(), "chunks": [c.hex() for c in chunks]},
-                         impl={"written": hx(written), "handled": n}, model=mo, spec_violated=True,
-                         site="TCPUDSServerTransport.handle_client")
-        elif tail and int(n) != int(n_m):
-            ctx.disagree("lines-server:unterminated-tail-handled-at-eof",
-                         "server loop handles an unterminated request tail at EOF as a request",
-                         {"side": "server", "stream": stream.hex(), "chunks": [c.hex() for c in chunks]},
-                         impl={"written": hx(written), "handled": n}, model=mo, spec_violated=True,
-                         site="TCPUDSServerTransport.handle_client")
+    _eval_server_bursts(ctx, serve, srv_cases)
     ctx.traces_validated += len(srv_cases)
 
     # --- whole executions (operation sequences, write side, server loop with end reasons, both directions) ---
@@ -532,8 +558,10 @@ def _run_scripts(ctx, scripts, label_prefix, site):
         index.append((len(batch), len(ml)))
         batch += ml
     out = ctx.lean(batch)
+    models = []
     for (label, _cls, scheme, ops), r, (off, n) in zip(scripts, impl, index):
         mo = [_api(x) for x in out[off + 1: off + n]]
+        models.append(mo)
         ctx.ev()
         ctx.kind(f"{label_prefix}:{label}")
         ctx.nontrivial((scheme, repr(ops)))
@@ -557,7 +585,7 @@ def _run_scripts(ctx, scripts, label_prefix, site):
                          {"side": "client-seq", "scheme": scheme, "ops": _ops_json(ops[: i + 1])},
                          impl=r[: i + 1], model=mo[: i + 1], spec_violated=in_prop, site=site)
     ctx.traces_validated += len(scripts)
-    return impl
+    return impl, models
 
 
 def _run_client_sequences(ctx, variants):
@@ -635,7 +663,7 @@ def _run_client_sequences(ctx, variants):
         ops += [("read", 0.2)] * (len(ms) + 1)
         for cls, scheme in variants:
             scripts.append(("seeded-seq", cls, scheme, ops))
-    impl = _run_scripts(ctx, scripts, "client-seq", "LinesTransportMixin.read/write, BaseTransport.request/close")
+    impl, _models = _run_scripts(ctx, scripts, "client-seq", "LinesTransportMixin.read/write, BaseTransport.request/close")
     ctx.sample({"scheme": scripts[40][2], "ops": _ops_json(scripts[40][3]), "impl": impl[40]})
 
 
@@ -839,11 +867,16 @@ def _run_server_sequences(ctx, _srv):
         stream = m.hex().encode() + b"\n3e00\n"
         cases.append((f"long-{size}", [("feed", c) for c in _splits(rng, stream, "multi")] + [("eof",)]))
 
+    _eval_server_seqs(ctx, _srv, TX, cases, [k % 2 for k in range(len(cases))])
+
+
+def _eval_server_seqs(ctx, _srv, TX, cases, kinds):
+    """cases: (label, steps), kinds[k]: 0 tcp / 1 unix server class -> (impl observations, model state lines per step)"""
     async def all_(a, b):
         out = []
         for k, (_label, steps) in list(enumerate(cases))[a:b]:
             try:
-                out.append(await asyncio.wait_for(_server_seq(_srv, TX, k % 2, steps), 600.0))
+                out.append(await asyncio.wait_for(_server_seq(_srv, TX, kinds[k], steps), 600.0))
             except Exception as e:  # noqa: BLE001
                 out.append(([("-", f"harness:{type(e).__name__}", "-", -1)], "?", 0, []))
         return out
@@ -882,7 +915,7 @@ def _run_server_sequences(ctx, _srv):
                 else:
                     key = "lines-server-seq:unread-bytes-differ"
                 ctx.disagree(key, f"server loop differs from srvFeed/srvEof after step {i}: impl={(w, e, left, n)} model={out[off + 2 + 2 * i]}",
-                             {"side": "server-seq", "kind": ["tcp", "unix"][ck % 2],
+                             {"side": "server-seq", "kind": ["tcp", "unix"][kinds[ck]],
                               "steps": [[s[0]] + [x.hex() for x in s[1:]] for s in steps[: i + 1]]},
                              impl=[list(o) for o in obs[: i + 1]], model=[out[off + 2 + 2 * j] for j in range(i + 1)],
                              spec_violated=label not in ("long-4096", "long-20000"),
@@ -892,7 +925,7 @@ def _run_server_sequences(ctx, _srv):
         want = b"".join(r.hex().encode() + b"\n" for _m, r in log if isinstance(r, bytes))
         if obs and obs[-1][0] != hx(want):
             ctx.disagree("lines-server-seq:written-is-not-the-replies-in-order", "bytes written differ from the replies handle_request gave, in order",
-                         {"side": "server-seq", "steps": [[s[0]] + [x.hex() for x in s[1:]] for s in steps]},
+                         {"side": "server-seq", "kind": ["tcp", "unix"][kinds[ck]], "steps": [[s[0]] + [x.hex() for x in s[1:]] for s in steps]},
                          impl=obs[-1][0], model=hx(want), spec_violated=True, site="TCPUDSServerTransport.handle_client")
         if closes:
             ctx.notes["server-loop-closes-writer"] = "handle_client called writer.close() (the model leaves the connection open)"
@@ -900,6 +933,7 @@ def _run_server_sequences(ctx, _srv):
         f"{zde} of {len(cases)} server-loop runs ended with ZeroDivisionError in the average-response-time log line after the loop "
         "(no request had been handled); outside the property, the loop had already ended")
     ctx.traces_validated += len(cases)
+    return impl, [[out[off + 2 + 2 * i] for i in range(len(steps))] for (_l, steps), off in zip(cases, index)]
 
 
 class _Pipe:
@@ -1018,54 +1052,64 @@ async def _exchange(_srv, base, init, kind, cls, scheme, msgs, mode, rng):
             "s2c": bytes(s2c.total), "pieces": (c2s.pieces, s2c.pieces), "server_end": end, "mutex_locked": locked}
 
 
-def _run_exchange(ctx, _srv, variants):
-    """both directions composed: real client <-> real server loop, random segmentation and delays in both directions, read
-    timeouts falling inside lines; against `exchange` of the model (scripted handler) and, with a real RandomUDSServer
-    behind handle_request, against the replies handle_request gave"""
+def _make_real_server_classes(_srv, server_seed):
+    """a real RandomUDSServer behind the real handle_request; every (request, reply | None | 'raised') is logged"""
+    def init_real(self):
+        rp = _srv.RandomUDSServer.RandomnessParameters()
+        server = _srv.RandomUDSServer(server_seed, rp, _srv.UDSServer.Behavior())
+        server.randomize()
+        from gallia.transports.base import TargetURI
+        _srv.UDSServerTransport.__init__(self, server, TargetURI("tcp-lines://127.0.0.1:20162"))
+        self.log = []
+
+    class Rec(_srv.TCPUDSServerTransport):
+        async def handle_request(self, m):
+            try:
+                r = await _srv.UDSServerTransport.handle_request(self, m)
+            except Exception:
+                self.log.append((bytes(m), "raised"))
+                raise
+            self.log.append((bytes(m), r[0]))
+            return r
+
+    return Rec, init_real
+
+
+def _variant(variants, scheme):
+    return next(v for v in variants if v[1] == scheme)
+
+
+def _eval_exchanges(ctx, _srv, variants, items):
+    """items: {label, msgs, scheme, mode, server_kind, pipe_seed, cuts: (k1, k2)}: the real client against the real server loop around the
+    scripted handler over two seeded pipes, against `exchange` of the model cut by k1 / k2 -> [(run, model line)]"""
+    import random as _random
     TX = _make_server_classes(_srv)
-    rng = ctx.rng
-    cases = []
-    firsts = list(range(256))
-    rng.shuffle(firsts)
-    for i in range(0, 256, 8):  # every first byte value (0xEE ends the loop: the rest of that burst stays unanswered)
-        cases.append(("first-bytes", [bytes([b]) + bytes(rng.randrange(256) for _ in range(rng.choice([0, 1, 3]))) for b in firsts[i:i + 8]]))
-    for n in (1, 2, 4094, 4095, 4096, 20000):
-        big = bytes([0x35]) + bytes(rng.randrange(256) for _ in range(n - 1))
-        cases.append((f"len-{n}", [b"\x3e\x01", big, b"\x10\x01", b"\x27\x01"]))
-    for _ in range(ctx.pick(40, 400)):
-        cases.append(("seeded", [m for m in _msgs(rng, rng.randint(1, 8), ctx.pick(120, 4095))]))
-    runs = []
 
     async def all_(a, b):
         out = []
-        for k, (_label, msgs) in list(enumerate(cases))[a:b]:
-            cls, scheme = variants[k % 2]
-            mode = "pipelined" if (k // 2) % 2 == 0 else "lockstep"
-            r = random_for(k)
+        for it in items[a:b]:
+            cls, scheme = _variant(variants, it["scheme"])
             try:
-                out.append((mode, scheme, await asyncio.wait_for(_exchange(_srv, TX, None, (k // 4) % 2, cls, scheme, msgs, mode, r), 20000.0)))
+                out.append(await asyncio.wait_for(_exchange(_srv, TX, None, it["server_kind"], cls, scheme, it["msgs"], it["mode"],
+                                                            _random.Random(it["pipe_seed"])), 20000.0))
             except Exception as e:  # noqa: BLE001
-                out.append((mode, scheme, {"got": [f"harness:{type(e).__name__}:{e}"], "timeouts": 0, "errors": [], "log": [], "c2s": b"", "s2c": b"",
-                                           "pieces": (0, 0), "server_end": "?", "mutex_locked": False}))
+                out.append({"got": [f"harness:{type(e).__name__}:{e}"], "timeouts": 0, "errors": [], "log": [], "c2s": b"", "s2c": b"",
+                            "pieces": (0, 0), "server_end": "?", "mutex_locked": False})
         return out
 
-    import random as _random
-
-    def random_for(k):
-        return _random.Random(f"C19:x:{ctx.seed}:{k}")
-
     runs = []
-    for a in range(0, len(cases), 25):
+    for a in range(0, len(items), 25):
         runs += vrun(all_(a, a + 25))[0]
-    batch = [f"xchg {rng.randrange(1, 255):02x}{rng.randrange(0, 255):02x}05 {rng.randrange(1, 255):02x}01{rng.randrange(0, 255):02x} " + ",".join(hx(m) for m in msgs)
-             for _label, msgs in cases]
+    batch = [f"xchg {it['cuts'][0]} {it['cuts'][1]} " + ",".join(hx(m) for m in it["msgs"]) for it in items]
     out = ctx.lean(batch)
-    for (label, msgs), (mode, scheme, r), mo in zip(cases, runs, out):
+    for it, r, mo in zip(items, runs, out):
+        label, msgs, mode, scheme = it["label"], it["msgs"], it["mode"], it["scheme"]
         ctx.ev()
         ctx.kind(f"exchange:{label}:{mode}")
         ctx.nontrivial(("xchg", tuple(msgs), mode, scheme))
         want = [x for x in mo.split(";") if x.startswith("msg")]
-        case = {"side": "exchange", "scheme": scheme, "mode": mode, "requests": [m.hex() for m in msgs]}
+        case = {"side": "exchange", "scheme": scheme, "mode": mode, "requests": [m.hex() for m in msgs],
+                "server_kind": ["tcp", "unix"][it["server_kind"]], "pipe_seed": it["pipe_seed"], "model_cuts": list(it["cuts"])}
         in_prop = all(len(m) <= 4095 for m in msgs)
         sent = b"".join(m.hex().encode() + b"\n" for m in msgs)
         if r["c2s"] != sent:
@@ -1083,29 +1127,76 @@ def _run_exchange(ctx, _srv, variants):
             ctx.disagree("lines-exchange:mutex-left-locked", "transport mutex still held after the exchange", case, impl="locked", model="free",
                          spec_violated=in_prop, site="BaseTransport.request")
         ctx.kind("exchange:read-timeouts>0" if r["timeouts"] else "exchange:no-read-timeout")
-    ctx.notes["exchange-pieces"] = {"c2s": sum(r["pieces"][0] for _m, _s, r in runs), "s2c": sum(r["pieces"][1] for _m, _s, r in runs),
-                                    "read_timeouts": sum(r["timeouts"] for _m, _s, r in runs)}
+    return list(zip(runs, out))
+
+
+def _eval_real_exchanges(ctx, _srv, variants, items):
+    """items: {msgs, scheme, mode, server_kind, pipe_seed, server_seed}: the real client against the real server loop around the real
+    handle_request over a real RandomUDSServer: the client reads back exactly the replies handle_request gave -> [run]"""
+    import random as _random
+
+    async def all_real(a, b):
+        out = []
+        for it in items[a:b]:
+            cls, scheme = _variant(variants, it["scheme"])
+            Rec, init_real = _make_real_server_classes(_srv, it["server_seed"])
+            try:
+                out.append(await asyncio.wait_for(_exchange(_srv, Rec, init_real, it["server_kind"], cls, scheme, it["msgs"], it["mode"],
+                                                            _random.Random(it["pipe_seed"])), 20000.0))
+            except Exception as e:  # noqa: BLE001
+                out.append({"got": [f"harness:{type(e).__name__}:{e}"], "log": [], "timeouts": 0, "server_end": "?", "mutex_locked": False})
+        return out
+
+    runs2 = []
+    for a in range(0, len(items), 25):
+        runs2 += vrun(all_real(a, a + 25))[0]
+    for it, r in zip(items, runs2):
+        msgs, mode, scheme = it["msgs"], it["mode"], it["scheme"]
+        ctx.ev()
+        ctx.kind(f"exchange-real-server:{mode}")
+        ctx.nontrivial(("xchg-real", tuple(msgs), mode, scheme))
+        want = ["msg " + b.hex() for _a, b in r["log"] if isinstance(b, bytes) and b]
+        handed = [a for a, _b in r["log"]]
+        raised = any(b == "raised" for _a, b in r["log"])
+        case = {"side": "exchange-real-server", "scheme": scheme, "mode": mode, "requests": [m.hex() for m in msgs], "server_seed": it["server_seed"],
+                "server_kind": ["tcp", "unix"][it["server_kind"]], "pipe_seed": it["pipe_seed"]}
+        if handed != msgs[: len(handed)] or (len(handed) < len(msgs) and not raised):
+            ctx.disagree("lines-exchange:requests-not-handed-over-in-order", "the server loop handed other requests to handle_request than the client sent",
+                         case, impl=[a.hex() for a in handed], model=[m.hex() for m in msgs], spec_violated=True, site="TCPUDSServerTransport.handle_client")
+        elif r["got"] != want:
+            ctx.disagree("lines-exchange:client-reads-differ-from-server-replies", "the client did not read back exactly the replies handle_request gave",
+                         case, impl=r["got"], model=want, spec_violated=True, site="LinesTransportMixin.read <-> TCPUDSServerTransport.handle_client")
+    return runs2
+
+
+def _run_exchange(ctx, _srv, variants):
+    """both directions composed: real client <-> real server loop, random segmentation and delays in both directions, read
+    timeouts falling inside lines; against `exchange` of the model (scripted handler) and, with a real RandomUDSServer
+    behind handle_request, against the replies handle_request gave"""
+    rng = ctx.rng
+    cases = []
+    firsts = list(range(256))
+    rng.shuffle(firsts)
+    for i in range(0, 256, 8):  # every first byte value (0xEE ends the loop: the rest of that burst stays unanswered)
+        cases.append(("first-bytes", [bytes([b]) + bytes(rng.randrange(256) for _ in range(rng.choice([0, 1, 3]))) for b in firsts[i:i + 8]]))
+    for n in (1, 2, 4094, 4095, 4096, 20000):
+        big = bytes([0x35]) + bytes(rng.randrange(256) for _ in range(n - 1))
+        cases.append((f"len-{n}", [b"\x3e\x01", big, b"\x10\x01", b"\x27\x01"]))
+    for _ in range(ctx.pick(40, 400)):
+        cases.append(("seeded", [m for m in _msgs(rng, rng.randint(1, 8), ctx.pick(120, 4095))]))
+    items = []
+    for k, (label, msgs) in enumerate(cases):
+        # the segmentation the model's exchange is cut by (the theorem says it does not matter): drawn per case, recorded with the case
+        cuts = (f"{rng.randrange(1, 255):02x}{rng.randrange(0, 255):02x}05", f"{rng.randrange(1, 255):02x}01{rng.randrange(0, 255):02x}")
+        items.append({"label": label, "msgs": msgs, "scheme": variants[k % 2][1], "mode": "pipelined" if (k // 2) % 2 == 0 else "lockstep",
+                      "server_kind": (k // 4) % 2, "pipe_seed": f"C19:x:{ctx.seed}:{k}", "cuts": cuts})
+    res = _eval_exchanges(ctx, _srv, variants, items)
+    runs = [r for r, _mo in res]
+    ctx.notes["exchange-pieces"] = {"c2s": sum(r["pieces"][0] for r in runs), "s2c": sum(r["pieces"][1] for r in runs),
+                                    "read_timeouts": sum(r["timeouts"] for r in runs)}
     ctx.traces_validated += len(cases)
 
     # a real RandomUDSServer behind the real handle_request: the client reads back exactly the replies handle_request gave
-    def init_real(self):
-        rp = _srv.RandomUDSServer.RandomnessParameters()
-        server = _srv.RandomUDSServer(ctx.seed + 7, rp, _srv.UDSServer.Behavior())
-        server.randomize()
-        from gallia.transports.base import TargetURI
-        _srv.UDSServerTransport.__init__(self, server, TargetURI("tcp-lines://127.0.0.1:20162"))
-        self.log = []
-
-    class Rec(_srv.TCPUDSServerTransport):
-        async def handle_request(self, m):
-            try:
-                r = await _srv.UDSServerTransport.handle_request(self, m)
-            except Exception:
-                self.log.append((bytes(m), "raised"))
-                raise
-            self.log.append((bytes(m), r[0]))
-            return r
-
     real_cases = []
     for _ in range(ctx.pick(12, 120)):
         ms = []
@@ -1113,36 +1204,157 @@ def _run_exchange(ctx, _srv, variants):
             ms.append(rng.choice([b"\x10\x01", b"\x10\x03", b"\x3e\x00", b"\x3e\x80", b"\x22\xf1\x90", b"\x27\x01", b"\x11\x01", b"\x10\x83",
                                   bytes([rng.randrange(256)]) + bytes(rng.randrange(256) for _ in range(rng.randint(0, 6)))]))
         real_cases.append(ms)
-
-    async def all_real(a, b):
-        out = []
-        for k, msgs in list(enumerate(real_cases))[a:b]:
-            cls, scheme = variants[k % 2]
-            mode = "pipelined" if (k // 2) % 2 == 0 else "lockstep"
-            try:
-                out.append((mode, scheme, await asyncio.wait_for(_exchange(_srv, Rec, init_real, (k // 4) % 2, cls, scheme, msgs, mode, random_for(10000 + k)), 20000.0)))
-            except Exception as e:  # noqa: BLE001
-                out.append((mode, scheme, {"got": [f"harness:{type(e).__name__}:{e}"], "log": [], "timeouts": 0, "server_end": "?", "mutex_locked": False}))
-        return out
-
-    runs2 = []
-    for a in range(0, len(real_cases), 25):
-        runs2 += vrun(all_real(a, a + 25))[0]
-    for msgs, (mode, scheme, r) in zip(real_cases, runs2):
-        ctx.ev()
-        ctx.kind(f"exchange-real-server:{mode}")
-        ctx.nontrivial(("xchg-real", tuple(msgs), mode, scheme))
-        want = ["msg " + b.hex() for _a, b in r["log"] if isinstance(b, bytes) and b]
-        handed = [a for a, _b in r["log"]]
-        raised = any(b == "raised" for _a, b in r["log"])
-        case = {"side": "exchange-real-server", "scheme": scheme, "mode": mode, "requests": [m.hex() for m in msgs], "server_seed": ctx.seed + 7}
-        if handed != msgs[: len(handed)] or (len(handed) < len(msgs) and not raised):
-            ctx.disagree("lines-exchange:requests-not-handed-over-in-order", "the server loop handed other requests to handle_request than the client sent",
-                         case, impl=[a.hex() for a in handed], model=[m.hex() for m in msgs], spec_violated=True, site="TCPUDSServerTransport.handle_client")
-        elif r["got"] != want:
-            ctx.disagree("lines-exchange:client-reads-differ-from-server-replies", "the client did not read back exactly the replies handle_request gave",
-                         case, impl=r["got"], model=want, spec_violated=True, site="LinesTransportMixin.read <-> TCPUDSServerTransport.handle_client")
+    items2 = [{"msgs": msgs, "scheme": variants[k % 2][1], "mode": "pipelined" if (k // 2) % 2 == 0 else "lockstep", "server_kind": (k // 4) % 2,
+               "pipe_seed": f"C19:x:{ctx.seed}:{10000 + k}", "server_seed": ctx.seed + 7} for k, msgs in enumerate(real_cases)]
+    _eval_real_exchanges(ctx, _srv, variants, items2)
     ctx.traces_validated += len(real_cases)
+
+
+# ------------------------------------------------------------------------------------------------- replay of one recorded case
+
+_CLAUSES = [
+    (("lines-client:unterminated-tail-at-eof", "lines-client:eos-vs", "lines-client-seq:eos-vs", "lines-client:msg-vs-eos", "lines-client-seq:msg-vs-eos"),
+     "end-of-stream is distinguishable from a message (an unterminated tail at EOF is not a message; a complete line is not end-of-stream)"),
+    (("lines-client:blocked-read-returned", "lines-client-seq:blocked-read-returned", "lines-client-seq:wrong-message:after-earlier-read",
+      "lines-client:msg-vs-pending", "lines-client-seq:msg-vs-pending", "lines-client-seq:mutex-left-locked", "lines-exchange:mutex-left-locked"),
+     "a read that times out consumes nothing, so the next read returns the complete next message"),
+    (("lines-client:write-bytes-differ", "lines-client-seq:write", "lines-client-seq:request-wrote-other-bytes", "lines-exchange:request-bytes-differ"),
+     "any sequence of messages of any content and length (1..4095 bytes) is delivered to the peer as exactly that sequence of byte strings (write emits hex + newline)"),
+    (("lines-server", "lines-exchange"),
+     "in the virtual ECU's server loop every message is delivered intact, in order, one per read, regardless of segmentation / coalescing: one reply "
+     "line per answered request, none for an unanswered one, nothing for an unterminated tail"),
+    (("lines-client",),
+     "every message is delivered intact, in order, one message per read, regardless of how the stream is segmented or coalesced"),
+]
+
+
+def _clause(key):
+    for prefixes, text in _CLAUSES:
+        if key.startswith(prefixes):
+            return text
+    return ""
+
+
+def _ops_from_json(ops):
+    out = []
+    for o in ops:
+        if o[0] in ("feed", "write"):
+            out.append((o[0], bytes.fromhex(o[1])))
+        elif o[0] == "request":
+            out.append(("request", bytes.fromhex(o[1]), o[2]))
+        elif o[0] == "read":
+            out.append(("read", o[1]))
+        else:
+            out.append((o[0],))
+    return out
+
+
+def _show_op(o):
+    if o[0] in ("feed", "write"):
+        return f"{o[0]} {o[1]!r}" if o[0] == "feed" and len(o[1]) <= 40 else f"{o[0]} {hx(o[1])[:80]}{'...' if len(o[1]) > 40 else ''} ({len(o[1])} bytes)"
+    if o[0] == "request":
+        return f"request {hx(o[1])[:80]} timeout={o[2]}"
+    if o[0] == "read":
+        return f"read timeout={o[1]}"
+    return o[0]
+
+
+def _short(x, n=160):
+    x = str(x)
+    return x if len(x) <= n else x[:n] + f"...({len(x)} chars)"
+
+
+def replay(ctx, payload):
+    """re-run one recorded case (client op script / server burst / client operation sequence / server chunk sequence / client-server exchange)
+    against the real line transports under $GALLIA_REPO and the Lean model, print both sides; 1 when they still differ"""
+    from lib import replaylib
+    import random as _random
+    import sys
+    import types
+    finding, origin = replaylib.pick(payload)
+    replaylib.header(payload, finding, origin)
+    if finding is None:
+        return int(replaylib.obligations(sys.modules[__name__], payload))
+    setup_repo_import()
+    from gallia.transports.tcp import TCPLinesTransport
+    from gallia.transports.unix import UnixLinesTransport
+    import gallia.services.uds.server as _srv
+    _srv.traceback = types.SimpleNamespace(print_exc=lambda *a, **k: None)
+    variants = [(TCPLinesTransport, "tcp-lines"), (UnixLinesTransport, "unix-lines")]
+    c = finding["case"]
+    side = c.get("side")
+    if side in ("client", "client-seq"):
+        ops = _ops_from_json(c["ops"])
+        cls, scheme = _variant(variants, c["scheme"])
+        print(f"case    : {scheme} client, {len(ops)} operations over an in-memory StreamReader")
+        if side == "client":
+            (r, mo), = _eval_client_scripts(ctx, [("replay", cls, scheme, ops)])
+        else:
+            (r,), (mo,) = _run_scripts(ctx, [("replay", cls, scheme, ops)], "client-seq", "LinesTransportMixin.read/write, BaseTransport.request/close")
+        for i, o in enumerate(ops):
+            print(f"  op {i:2d}: {_show_op(o)}")
+            print(f"    impl : {_short(r[i]) if i < len(r) else '-'}")
+            print(f"    model: {_short(mo[i]) if i < len(mo) else '-'}")
+        for x in r[len(ops):]:
+            print(f"    impl : after the script: {x}")
+    elif side == "server":
+        stream = bytes.fromhex(c["stream"])
+        chunks = [bytes.fromhex(x) for x in c["chunks"]]
+        tail = bytes.fromhex(c["tail"]) if "tail" in c else stream.rsplit(b"\n", 1)[-1]
+        print(f"case    : {['tcp', 'unix'][len(stream) % 2]} line server fed {len(stream)} bytes in {len(chunks)} chunk(s), then EOF"
+              + (f"; unterminated tail {tail!r}" if tail else ""))
+        print(f"          stream {_short(stream, 300)}")
+        ((w, n), mo), = _eval_server_bursts(ctx, _make_serve(_srv), [(stream, chunks, tail)])
+        w_m, _e, _l, n_m = mo.split()
+        print(f"impl : replies written {_short(w, 400)}; requests handed to handle_request: {n}")
+        print(f"model: replies written {_short(w_m, 400)}; requests: {n_m}")
+    elif side == "server-seq":
+        steps = [(st[0],) + tuple(bytes.fromhex(x) for x in st[1:]) for st in c["steps"]]
+        kind = ["tcp", "unix"].index(c.get("kind", "tcp"))
+        longest = max((len(ln) for ln in b"".join(st[1] for st in steps if st[0] == "feed").split(b"\n")), default=0)
+        label = "long-4096" if longest > 2 * 4095 + 2 else "replay"  # a message above the property's 4095 bytes: tie only, as in the run
+        print(f"case    : {['tcp', 'unix'][kind]} line server, {len(steps)} step(s), observed after every step (written, loop, unread, requests handed over)")
+        impl, models = _eval_server_seqs(ctx, _srv, _make_server_classes(_srv), [(label, steps)], [kind])
+        obs, end, _closes, log = impl[0]
+        for i, st in enumerate(steps):
+            print(f"  step {i:2d}: " + (f"feed {_short(st[1], 120)}" if st[0] == "feed" else "eof"))
+            print(f"    impl : {_short(obs[i], 300) if i < len(obs) else '-'}")
+            print(f"    model: {_short(models[0][i], 300)}")
+        print(f"impl : handle_request log: {[(a.hex()[:40], b.hex()[:40] if isinstance(b, bytes) else b) for a, b in log][:12]}; loop ended: {end}")
+    elif side == "exchange":
+        msgs = [bytes.fromhex(x) for x in c["requests"]]
+        if "pipe_seed" not in c:
+            print("this replay file was written before the exchange cases carried the pipe seed; re-run ./check C19 to get a replayable case")
+            return 1
+        it = {"label": "replay", "msgs": msgs, "scheme": c["scheme"], "mode": c["mode"], "server_kind": ["tcp", "unix"].index(c["server_kind"]),
+              "pipe_seed": c["pipe_seed"], "cuts": tuple(c["model_cuts"])}
+        print(f"case    : {c['scheme']} client <-> {c['server_kind']} line server (scripted handler), {c['mode']}, {len(msgs)} request(s), "
+              f"pipes seeded `{c['pipe_seed']}`: " + " ".join(_short(m.hex(), 24) for m in msgs))
+        (r, mo), = _eval_exchanges(ctx, _srv, variants, [it])
+        print(f"impl : client reads {_short([_short(x, 60) for x in r['got']], 800)}; read timeouts {r['timeouts']}; errors {r['errors']}; server loop {r['server_end']}")
+        print(f"impl : server log {[(a.hex()[:24], b.hex()[:24] if isinstance(b, bytes) else b) for a, b in r['log']]}")
+        print(f"impl : bytes client->server {_short(hx(r['c2s']), 200)}")
+        print(f"model: client reads {[_short(x, 60) for x in mo.split(';') if x.startswith('msg')]} then timeouts")
+    elif side == "exchange-real-server":
+        msgs = [bytes.fromhex(x) for x in c["requests"]]
+        if "pipe_seed" not in c:
+            print("this replay file was written before the exchange cases carried the pipe seed; re-run ./check C19 to get a replayable case")
+            return 1
+        it = {"msgs": msgs, "scheme": c["scheme"], "mode": c["mode"], "server_kind": ["tcp", "unix"].index(c["server_kind"]),
+              "pipe_seed": c["pipe_seed"], "server_seed": c["server_seed"]}
+        print(f"case    : {c['scheme']} client <-> {c['server_kind']} line server over RandomUDSServer(seed {c['server_seed']}), {c['mode']}, "
+              f"pipes seeded `{c['pipe_seed']}`: " + " ".join(m.hex() for m in msgs))
+        r, = _eval_real_exchanges(ctx, _srv, variants, [it])
+        print(f"impl : handed to handle_request {[a.hex() for a, _b in r['log']]}")
+        print(f"impl : client reads {_short(r['got'], 500)}; server loop {r.get('server_end')}")
+        print(f"model: handed over = the requests sent, in order; client reads = the replies handle_request gave: "
+              f"{['msg ' + b.hex() for _a, b in r['log'] if isinstance(b, bytes) and b]}")
+    else:
+        import json
+        print(json.dumps(finding, indent=1)[:4000])
+        print("unknown case shape")
+        return 1
+    return replaylib.verdict(ctx, finding, _clause)
 
 
 MANIFEST = {
